@@ -147,6 +147,10 @@ def run(tier='quick'):
            site='decoders-index')
     try:
         _zlib_status(prog, chk, D5, zu)
+        try:
+            _whole_input_bounds(prog, chk, D3, zu)
+        except AnalysisBroken as e:
+            chk.fail_broken('D3: %s' % e)
     except AnalysisBroken as e:
         # the decompression loop has a form the finite evaluator does not model: D5 is undecided (exit 2 unless
         # another rule reports a violation, which stands on its own)
@@ -577,6 +581,8 @@ def _zlib_status(prog, chk, D5, zu):
                      and (strip(children(x)[0]).get('referencedDecl') or {}).get('name') == 'inflate']
     if len(inflate_calls) != 1:
         raise AnalysisBroken('zlib_uncompress: expected exactly one inflate() call in the loop')
+    if vars_.get('whole'):
+        return _zlib_status_whole(prog, chk, D5, zu, obody, ocond, vars_, sid, outer)
 
     for cname, code in Z_CODES.items():
         if cname in ('Z_VERSION_ERROR', 'Z_ERRNO', 'Z_STREAM_ERROR'):
@@ -645,6 +651,129 @@ def _zlib_status(prog, chk, D5, zu):
                           'inflate status %s does not end in an exception (outcomes %s)' % (cname, sorted(res)))
 
 
+def _whole_input_bounds(prog, chk, D3, zu):
+    """Whole-input form: the bytes the stream is told to read, [next_in, next_in + avail_in) as stored before the
+    loop, lie inside the compressed buffer - for every buffer size at which the loop is reached (sizes 0 .. 9
+    and a large one are evaluated; unsigned wrap-around of a length shows as a huge count)."""
+    from ..feval import UNKNOWN
+    obody, ocond, vars_, sid, outer = zlib_loop(prog, zu)
+    if not vars_.get('whole'):
+        return
+    cands = [p['id'] for p in zu.params if p['id'] in vector_ids(zu) and 'const' in (p.get('type') or '')]
+    bad = []
+    reached = 0
+    for size in tuple(range(10)) + (1000,):
+        for cid in cands:
+            ev, states, _ = prefix_states(prog, zu, sid, outer, {cid: size})
+            for st, env in states:
+                if st is not None:
+                    continue
+                off = ev.binop('-', env.get(('member', sid, 'next_in'), UNKNOWN), container_data(env, cid))
+                n = env.get(('member', sid, 'avail_in'), UNKNOWN)
+                if not isinstance(off, int):
+                    continue        # not an address inside this parameter
+                reached += 1
+                if not isinstance(n, int):
+                    chk.unknown(D3, 'zlib_uncompress', 'buffer of %d byte(s): the number of input bytes the stream is handed '
+                                'before the loop (%r) is outside the model' % (size, n))
+                    return
+                if n < 0:
+                    n += 1 << 32        # stored to an unsigned counter
+                if off < 0 or off + n > size:
+                    bad.append('buffer of %d byte(s): the stream is told to read %d byte(s) from offset %d' % (size, n, off))
+    if not reached:
+        raise AnalysisBroken('zlib_uncompress: the input pointer handed to the stream before the loop is not an address '
+                             'inside a vector parameter on any evaluated path')
+    if bad:
+        chk.violation(D3, 'input-window|zlib_uncompress', locstr(outer),
+                      'the input handed to inflate() before the loop reaches outside the compressed buffer: %s' % '; '.join(bad[:3]))
+    else:
+        chk.ok(D3, 'zlib_uncompress: the input window handed to the stream before the loop lies inside the compressed '
+                   'buffer for every buffer size that reaches the loop', locstr(outer))
+
+
+def _zlib_status_whole(prog, chk, D5, zu, obody, ocond, vars_, sid, outer):
+    """D5 for the form in which the stream has its whole input before a single loop around inflate().
+
+    The loop ends on every input when no status but Z_OK lets it go round again: Z_OK means inflate consumed
+    input or produced output (both finite), Z_STREAM_END and the error states are sticky, and Z_BUF_ERROR says
+    that nothing can be done with the input and the room there is - which, with all the input handed over, no
+    later round can change, except when the call had no room at all (avail_out == 0 on entry) and the round
+    provides some.  A loop that only looks at the room (`while (avail_out == 0)`) goes round once more after
+    Z_STREAM_END with the room used up: accepted when the next call is given room, for it then returns
+    Z_STREAM_END with room left, where the loop must leave.  One round is evaluated for every status x {no input left, input left} x {output room
+    used up, room left}; the slice scenarios of the two-loop form do not exist here."""
+    from ..feval import Lin, UNKNOWN
+    where = locstr(outer)
+
+    def rearmed(ends, in_left):
+        """every round that follows a continuing end state calls inflate() with a positive amount of output room
+        (set at the end of this round or at the start of the next)"""
+        for r, e in ends:
+            if r != 'continues':
+                continue
+            seen = []
+
+            def watch(ev2_):
+                ev2_.track_output, ev2_.inflate_entries = True, seen
+            _zlib_round(prog, zu, obody, ocond, vars_, sid, 0, False, exhausted=not in_left, in_left=in_left,
+                        preset=e, configure=watch)
+            if not seen or not all(isinstance(room, int) and not isinstance(room, bool) and room > 0 for _, room in seen):
+                return False
+        return True
+
+    for in_left, in_desc in ((0, 'no input left'), (5, 'unconsumed input remains')):
+        for cname, code in Z_CODES.items():
+            if cname in ('Z_VERSION_ERROR', 'Z_ERRNO', 'Z_STREAM_ERROR'):
+                continue        # not returned by inflate() on a stream this function initialised itself
+            for full in (False, True):
+                if in_left and cname == 'Z_OK':
+                    continue    # progress was made and more can be: going on is the point of the loop
+                if in_left and cname == 'Z_BUF_ERROR' and not full:
+                    continue    # contract: with input and room inflate() makes progress or fails
+                res, ends = _zlib_round(prog, zu, obody, ocond, vars_, sid, code, full, exhausted=not in_left,
+                                        in_left=in_left, want_states=True)
+                inst = '%s, inflate returns %s, output room %s' % (in_desc, cname, 'used up' if full else 'left')
+                if cname in ('Z_DATA_ERROR', 'Z_MEM_ERROR', 'Z_NEED_DICT'):
+                    if res == {'throw'}:
+                        chk.ok(D5, inst + ' -> throw', where, site=inst)
+                    elif 'continues' in res:
+                        chk.violation(D5, 'zlib_uncompress|%s|continues' % cname, where,
+                                      '%s: the loop goes round again on an error status; the error state is sticky, so '
+                                      'every further round is the same - it never ends' % inst,
+                                      facts={'outcomes': sorted(res)})
+                    else:
+                        chk.violation(D5, 'zlib_uncompress|%s|not-rejected' % cname, where,
+                                      'inflate status %s does not end in an exception (outcomes %s)' % (cname, sorted(res)))
+                elif 'continues' not in res:
+                    chk.ok(D5, inst + ' -> ' + ','.join(sorted(res)), where, site=inst)
+                elif cname == 'Z_OK':
+                    # (no input left) progress was made in this call; the next one returns Z_BUF_ERROR at the latest
+                    chk.ok(D5, inst + ' -> continues (progress was made, by contract)', where, site=inst)
+                elif cname == 'Z_BUF_ERROR' and full and rearmed(ends, in_left):
+                    chk.ok(D5, inst + ' (the call had no room) -> continues with fresh output room', where, site=inst)
+                elif cname == 'Z_STREAM_END' and full and rearmed(ends, in_left):
+                    # the loop asks for the room only; the next call has room, writes nothing and returns
+                    # Z_STREAM_END again: the state "output room left", which is evaluated on its own
+                    chk.ok(D5, inst + ' -> one more round with fresh output room (then: Z_STREAM_END, output room left)',
+                           where, site=inst)
+                elif cname == 'Z_STREAM_END':
+                    chk.violation(D5, 'zlib_uncompress|Z_STREAM_END|continues|%s' % in_desc, where,
+                                  '%s: the loop runs another round although the stream has ended; inflate makes no '
+                                  'further progress, so the round repeats forever%s' % (
+                                      inst, ' (valid stream followed by trailing bytes)' if in_left else ''),
+                                  facts={'outcomes': sorted(res)})
+                else:
+                    chk.violation(D5, 'zlib_uncompress|%s|continues' % cname, where,
+                                  '%s: the loop continues although no progress is possible (the stream has all the input '
+                                  'there is), so the next round is identical - it never ends on a truncated stream' % inst,
+                                  facts={'outcomes': sorted(res)})
+    chk.note('D5: zlib_uncompress: the scenarios "chunk consumed, further chunks follow" and "inner loop hands back to the '
+             'outer loop, which feeds the next chunk" are skipped: the stream is handed its whole input before the single '
+             'loop at %s (no store to next_in / avail_in inside it), there are no chunks of input' % where)
+    benign_buf_error(prog, chk, D5, zu, obody, ocond, vars_, sid, outer)
+
+
 def outer_loop(fn, api):
     """The outermost loop of fn that contains the call of `api`, wherever it is nested (a block,
     a try statement): -> (loop body, loop condition or None, loop node)."""
@@ -685,7 +814,7 @@ def zlib_loop(prog, zu):
     strm = [x for x in walk(zu.body) if x.get('kind') == 'VarDecl' and 'z_stream' in (x.get('type') or '')]
     if len(strm) != 1:
         raise AnalysisBroken('zlib_uncompress: z_stream variable not found')
-    vars_ = zlib_roles(zu, obody, strm[0]['id'], 'inflate')
+    vars_ = zlib_roles(zu, obody, strm[0]['id'], 'inflate', prog=prog, loop=outer)
     return obody, ocond, vars_, strm[0]['id'], outer
 
 
@@ -694,7 +823,7 @@ def _callee_name(x):
     return (strip(c[0]).get('referencedDecl') or {}).get('name') if c else None
 
 
-def zlib_roles(fn, obody, sid, api, need_ret=True):
+def zlib_roles(fn, obody, sid, api, need_ret=True, prog=None, loop=None):
     """The locals of a (de)compression loop, found by what they do, not by what they are called:
 
     ret  the variable that receives the value of the `api` call (inflate / deflate) in the loop;
@@ -702,7 +831,10 @@ def zlib_roles(fn, obody, sid, api, need_ret=True):
     end  the input limit: the other pointer local from which `strm.avail_in` is computed
          (`end - ptr`, possibly through a named local, a ternary or std::min).
 
-    -> {'ptr': decl, 'end': decl, 'ret': decl} (the VarDecl / ParmVarDecl nodes)."""
+    -> {'ptr': decl, 'end': decl, 'ret': decl} (the VarDecl / ParmVarDecl nodes).
+
+    When nothing inside the loop stores to next_in / avail_in, the stream was handed its complete input before
+    the loop (whole-input form, see whole_input): 'ptr' and 'end' are None and 'whole' holds what was stored."""
     decls = {p['id']: p for p in fn.params}
     defs = {}           # local id -> expressions it is computed from
     for x in walk(fn.body):
@@ -768,6 +900,11 @@ def zlib_roles(fn, obody, sid, api, need_ret=True):
         raise AnalysisBroken(what + 'the variable receiving the status of %s() was not found' % api)
     # ptr
     nxt = member_stores('next_in')
+    if not nxt and not member_stores('avail_in') and prog is not None and loop is not None:
+        w = whole_input(prog, fn, loop, obody, sid, api)
+        if w is not None:
+            return {'ptr': None, 'end': None, 'whole': w,
+                    'ret': decls[rets[0]] if len(set(rets)) == 1 and rets[0] in decls else None}
     proots = []
     for e in nxt:
         for i in pointer_roots(e):
@@ -787,12 +924,121 @@ def zlib_roles(fn, obody, sid, api, need_ret=True):
             'ret': decls[rets[0]] if len(set(rets)) == 1 and rets[0] in decls else None}
 
 
+STREAM_INPUT = ('next_in', 'avail_in')
+
+
+def _stream_store(x, sid, names):
+    """x is `strm.<name> = rhs` (also `+=` ...) on the stream variable sid -> (name, rhs) or None"""
+    if x.get('kind') in ('BinaryOperator', 'CompoundAssignOperator') and (x.get('opcode') or '').endswith('=') \
+            and x.get('opcode') not in ('==', '!=', '<=', '>='):
+        l = strip(children(x)[0])
+        if l.get('kind') == 'MemberExpr' and l.get('name') in names and children(l):
+            b = strip(children(l)[0])
+            if b.get('kind') == 'DeclRefExpr' and (b.get('referencedDecl') or {}).get('id') == sid:
+                return l.get('name'), children(x)[1]
+    return None
+
+
+def _is_null(e):
+    e = strip(e, explicit=True)
+    return e.get('kind') in ('GNUNullExpr', 'CXXNullPtrLiteralExpr') or \
+        (e.get('kind') == 'IntegerLiteral' and int(e.get('value') or 0) == 0)
+
+
+def whole_input(prog, fn, loop, obody, sid, api):
+    """The form in which the stream is handed its COMPLETE input once, before the loop: nothing in the loop
+    (nor in a repository function the loop hands the stream to) stores to next_in / avail_in, and the last
+    stores to both before the loop are unconditional statements on the way to the loop.  There are no input
+    slices then: "input exhausted" is the state avail_in == 0, which only inflate() itself brings about.
+
+    -> {'next_in': rhs, 'avail_in': rhs, 'next_out': rhs | None, 'avail_out': rhs | None} (the expressions last
+    stored before the loop), or None when next_in is never stored before the loop either (no input at all: the
+    caller reports the missing cursor).  Forms outside the model raise AnalysisBroken."""
+    what = '%s: ' % fn.name
+
+    def feeds(body, depth, seen, tu):
+        """does body (or a repository function it passes a z_stream to) store to next_in / avail_in of any stream?"""
+        for x in walk(body):
+            if x.get('kind') in ('BinaryOperator', 'CompoundAssignOperator') and (x.get('opcode') or '').endswith('=') \
+                    and x.get('opcode') not in ('==', '!=', '<=', '>='):
+                l = strip(children(x)[0])
+                if l.get('kind') == 'MemberExpr' and l.get('name') in STREAM_INPUT:
+                    return True
+            if x.get('kind') == 'CallExpr' and depth < 4:
+                if not any('z_stream' in (y.get('type') or '') for a in children(x)[1:] for y in walk(a)):
+                    continue
+                d, qn, virt, recv = prog.resolve_callee(tu, x)
+                for g in (prog.by_name(qn) if qn else []):
+                    if g.body is not None and prog.in_repo(g.file) and g.key not in seen:
+                        seen.add(g.key)
+                        if feeds(g.body, depth + 1, seen, g.tu):
+                            return True
+        return False
+    for x in walk(obody):
+        if x.get('kind') == 'CallExpr' and _callee_name(x) != api:
+            d, qn, virt, recv = prog.resolve_callee(fn.tu, x)
+            for g in (prog.by_name(qn) if qn else []):
+                if g.body is not None and prog.in_repo(g.file) and feeds(g.body, 1, {g.key}, g.tu):
+                    raise AnalysisBroken(what + 'the input of the stream is fed by %s(), called in the loop: the input '
+                                         'cursor (pointer stored to next_in in the loop) was not found' % g.name)
+    for x in walk(obody):
+        if x.get('kind') in ('DoStmt', 'WhileStmt', 'ForStmt', 'CXXForRangeStmt') and \
+                any(y.get('kind') == 'CallExpr' and _callee_name(y) == api for y in walk(x)):
+            raise AnalysisBroken(what + 'the stream has its whole input before the loop and %s() sits in a nested '
+                                 'loop: only a single loop is modelled for this form' % api)
+
+    # statements executed before the loop, outermost first; `direct` = unconditional on the way to the loop
+    def path(n):
+        if n is loop:
+            return [n]
+        for c in children(n):
+            if c.get('kind') == 'LambdaExpr':
+                continue
+            p = path(c)
+            if p:
+                return [n] + p
+        return None
+    chain = path(fn.body)
+    if not chain:
+        raise AnalysisBroken(what + 'the loop around %s() is not part of the function body' % api)
+    last = {}
+    for parent, child in zip(chain, chain[1:]):
+        if parent.get('kind') not in ('CompoundStmt', 'CXXTryStmt'):
+            raise AnalysisBroken(what + 'the loop around %s() is nested in a %s: not modelled for the form that hands '
+                                 'the stream its whole input before the loop' % (api, parent.get('kind')))
+        for st in children(parent):
+            if st is child:
+                break
+            top = _stream_store(strip(st), sid, STREAM_INPUT + ('next_out', 'avail_out'))
+            if top is not None:
+                last[top[0]] = (top[1], True)
+                continue
+            for x in walk(st):
+                inner = _stream_store(x, sid, STREAM_INPUT + ('next_out', 'avail_out'))
+                if inner is not None:
+                    last[inner[0]] = (inner[1], False)
+    if 'next_in' not in last or _is_null(last['next_in'][0]):
+        return None
+    for name in STREAM_INPUT:
+        if name not in last or not last[name][1]:
+            raise AnalysisBroken(what + 'no input is stored to the stream inside the loop and the last store to %s '
+                                 'before the loop is %s: not modelled' % (name, 'missing' if name not in last else 'conditional'))
+    return {name: (last[name][0] if name in last and last[name][1] else None)
+            for name in STREAM_INPUT + ('next_out', 'avail_out')}
+
+
 def benign_buf_error(prog, chk, rid, zu, obody, ocond, vars_, sid, outer):
     """zlib.h: "inflate() returns Z_BUF_ERROR if no progress was possible ... Note that Z_BUF_ERROR is
     not fatal, and inflate() can be called again with more input".  It happens on a valid stream when
     a round consumed its whole input slice while filling the output buffer exactly: the loop calls
     inflate once more (the buffer was full), which has nothing to do.  With further input slices
     to come the loop must go on to feed them - neither throw nor leave."""
+    if vars_.get('whole'):
+        chk.note('%s: %s: the scenario "Z_BUF_ERROR because an input slice was consumed exactly as the output buffer '
+                 'filled, further slices follow" is skipped: the stream is handed its whole input before the loop '
+                 '(no store to next_in / avail_in in the loop at %s), so there are no slices; Z_BUF_ERROR is evaluated '
+                 'as a no-progress status of the single loop instead' % (rid, zu.name, locstr(outer)))
+        return
     res = _zlib_round(prog, zu, obody, ocond, vars_, sid, Z_CODES['Z_BUF_ERROR'], False,
                       exhausted=False, in_left=0)
     inst = 'further input slices follow, inflate returns Z_BUF_ERROR (slice consumed as the output buffer filled)'
@@ -805,20 +1051,30 @@ def benign_buf_error(prog, chk, rid, zu, obody, ocond, vars_, sid, outer):
 
 
 def _zlib_round(prog, zu, obody, ocond, vars_, sid, code, more_output, exhausted=True,
-                in_left=None, want_inner=False):
-    """One outer round; returns set of {'throw','exits','continues'}."""
+                in_left=None, want_inner=False, want_states=False, preset=None, configure=None):
+    """One outer round; returns set of {'throw','exits','continues'} (want_states: and the list of
+    (outcome, environment at the end of the round))."""
     from ..feval import Evaluator, UNKNOWN, Outcome
-    pid, eid, rid = vars_['ptr']['id'], vars_['end']['id'], vars_['ret']['id']
-
-    class Ev(Evaluator):
-        pass
-    env = {pid: 1000 if exhausted else 0, eid: 1000, rid: UNKNOWN}
+    rid = vars_['ret']['id']
+    if vars_.get('whole'):
+        # whole input handed over before the loop: "exhausted" is the stream's own counter at 0, before and
+        # after the call; otherwise some input is left over after the call unless the scenario says how much
+        env = {rid: UNKNOWN, ('member', sid, 'avail_in'): 0 if exhausted else 5}
+        if in_left is None:
+            in_left = 0 if exhausted else 5
+    else:
+        pid, eid = vars_['ptr']['id'], vars_['end']['id']
+        env = {pid: 1000 if exhausted else 0, eid: 1000, rid: UNKNOWN}
 
     def hook(ev, qn, args, env_, node, stmt=False):
         return NotImplemented
     ev = Evaluator(prog, zu, hook)
     ev.inner_cond = []
     ev.in_left = in_left
+    if preset:
+        env.update(preset)
+    if configure is not None:
+        configure(ev)
     _patch(ev, sid, code, more_output)
     # constants declared before the loop (chunk size)
     for stx in children(zu.body):
@@ -831,19 +1087,26 @@ def _zlib_round(prog, zu, obody, ocond, vars_, sid, code, more_output, exhausted
                         if isinstance(v, int):
                             env[d['id']] = v
     results = set()
+    ends = []
     states = list(ev.exec(obody, dict(env), ()))
     for st, e in states:
         if st is not None:
             if st.kind == 'throw':
-                results.add('throw')
+                r = 'throw'
             elif st.kind == 'break':
-                results.add('exits')
+                r = 'exits'
             elif st.kind == 'return':
-                results.add('exits')
+                r = 'exits'
             elif st.kind == 'continue':
-                results.add(_cond(ev, ocond, e))
-            continue
-        results.add(_cond(ev, ocond, e))
+                r = _cond(ev, ocond, e)
+            else:
+                continue
+        else:
+            r = _cond(ev, ocond, e)
+        results.add(r)
+        ends.append((r, e))
+    if want_states:
+        return results, ends
     if want_inner:
         return results, list(ev.inner_cond)
     return results
@@ -853,16 +1116,115 @@ def _cond(ev, ocond, env):
     if ocond is None or not ocond.get('kind'):
         return 'continues'          # for (;;)
     v = ev.ev(ocond, env)
-    from ..feval import UNKNOWN, Choice
-    if v is UNKNOWN or isinstance(v, Choice):
+    from ..feval import undecided
+    if undecided(v):
         return 'continues'
     return 'continues' if ev.truth(v) else 'exits'
+
+
+def prefix_states(prog, f, sid, outer, sizes=None):
+    """Finite evaluation of the statements of f before the loop `outer` (a statement of the function body),
+    std::vector locals and parameters tracked (sizes[id] preset): -> (evaluator, [(status, env)])."""
+    from ..feval import Evaluator
+    stmts = children(f.body)
+    idx = [i for i, st in enumerate(stmts) if st is outer]
+    if not idx:
+        raise AnalysisBroken('%s: the loop around inflate() is not a statement of the function body itself: what happens '
+                             'before and after it is not modelled' % f.name)
+    ev = Evaluator(prog, f, lambda *a, **k: NotImplemented)
+    ev.inner_cond, ev.in_left, ev.deflate_calls = [], None, []
+    ev.containers = vector_ids(f)
+    ev.track_output, ev.inflate_entries, ev.appends = True, [], []
+    _patch(ev, sid, 0, False)
+    env = {('size', k): v for k, v in (sizes or {}).items()}
+    pre = {'kind': 'CompoundStmt', 'inner': stmts[:idx[0]]}
+    return ev, list(ev.exec(pre, env, ())), stmts[idx[0] + 1:]
+
+
+def vector_ids(f):
+    ids = {p['id'] for p in f.params if 'vector<' in (p.get('type') or '')}
+    ids |= {x['id'] for x in walk(f.body) if x.get('kind') == 'VarDecl' and 'vector<' in (x.get('type') or '')}
+    return ids
+
+
+CONTAINER_READS = ('size', 'length', 'empty', 'data', 'begin', 'cbegin', 'end', 'cend', 'capacity', 'max_size',
+                   'at', 'front', 'back', 'operator[]')
+
+
+def container_data(env, cid):
+    """The address of the storage of the tracked container cid: a new symbol after every operation that may
+    move it (so that a pointer taken before and used after is not equal to any address inside the container)."""
+    from ..feval import Lin
+    return Lin.sym('data(%s)#%d' % (cid, env.get(('gen', cid), 0)))
+
+
+def container_call(ev, x, env):
+    """Member call on a tracked std::vector (ev.containers: declaration ids): size / data / end as values
+    (('size', id) in the environment; addresses are symbolic), resize / insert / push_back / clear / reserve as
+    effects on them; an append is recorded in ev.appends.  NotImplemented when x is no such call."""
+    from ..feval import UNKNOWN, Lin
+    callee = strip(children(x)[0]) if children(x) else {}
+    if callee.get('kind') != 'MemberExpr' or not children(callee):
+        return NotImplemented
+    recv = strip(children(callee)[0], explicit=True)
+    cid = (recv.get('referencedDecl') or {}).get('id') if recv.get('kind') == 'DeclRefExpr' else None
+    if cid is None or cid not in ev.containers:
+        return NotImplemented
+    m = callee.get('name')
+    args = [a for a in children(x)[1:] if a.get('kind') != 'CXXDefaultArgExpr']
+    size = env.get(('size', cid), UNKNOWN)
+    if m in ('size', 'length'):
+        return size
+    if m == 'empty':
+        return ev.binop('==', size, 0)
+    if m in ('data', 'begin', 'cbegin'):
+        return container_data(env, cid)
+    if m in ('end', 'cend'):
+        return ev.binop('+', container_data(env, cid), size)
+    if m in CONTAINER_READS:
+        return UNKNOWN
+
+    def moved():
+        env[('gen', cid)] = env.get(('gen', cid), 0) + 1
+    if m == 'resize' and args:
+        v = ev.ev(args[0], env)
+        if isinstance(v, bool) or not isinstance(v, (int, Lin)):
+            ev.fresh = getattr(ev, 'fresh', 0) + 1
+            v = Lin.sym('n%d' % ev.fresh)       # some size: only its identity matters
+        env[('size', cid)] = v
+        moved()
+    elif m == 'reserve':
+        moved()
+    elif m == 'clear':
+        env[('size', cid)] = 0
+    elif m in ('push_back', 'emplace_back'):
+        env[('size', cid)] = ev.binop('+', size, 1)
+        moved()
+    elif m == 'insert' and len(args) == 3:
+        def plain(a):
+            # an iterator converted to a const_iterator, a temporary bound to a reference: the same position
+            a = strip(a, explicit=True)
+            while a.get('kind') in ('CXXConstructExpr', 'MaterializeTemporaryExpr', 'CXXBindTemporaryExpr') and \
+                    len(children(a)) == 1:
+                a = strip(children(a)[0], explicit=True)
+            return a
+        pos, b, e = (ev.ev(plain(a), env) for a in args)
+        n = ev.binop('-', e, b)
+        at_end = ev.binop('==', pos, ev.binop('+', container_data(env, cid), size)) is True
+        if hasattr(ev, 'appends'):
+            ev.appends.append({'container': cid, 'at_end': at_end, 'source': b, 'count': n})
+        env[('size', cid)] = ev.binop('+', size, n)
+        moved()
+    else:
+        env[('size', cid)] = UNKNOWN        # assign, erase, swap, ...: not modelled
+        moved()
+    return UNKNOWN
 
 
 def _patch(ev, sid, code, more_output):
     """Teach the finite evaluator the few constructs of the zlib loop: member
     assignments on the z_stream, ptr += n, the inner do-while, inflate()."""
-    from ..feval import UNKNOWN, Outcome
+    from ..feval import UNKNOWN, Outcome, Lin
     base_exec = ev.exec
     base_ev = ev.ev
 
@@ -871,6 +1233,14 @@ def _patch(ev, sid, code, more_output):
         if x.get('kind') == 'CallExpr':
             nm = (strip(children(x)[0]).get('referencedDecl') or {}).get('name')
             if nm == 'inflate':
+                if getattr(ev, 'track_output', False):
+                    # what the call wrote: the room it was given less the room it left; next_out and total_out
+                    # move on by that much (zlib.h)
+                    was = env.get(('member', sid, 'avail_out'), UNKNOWN)
+                    ev.inflate_entries.append((env.get(('member', sid, 'next_out'), UNKNOWN), was))
+                    wrote = ev.binop('-', was, 0 if more_output else 1)
+                    for m in ('next_out', 'total_out'):
+                        env[('member', sid, m)] = ev.binop('+', env.get(('member', sid, m), UNKNOWN), wrote)
                 env[('member', sid, 'avail_out')] = 0 if more_output else 1
                 if ev.in_left is not None:
                     env[('member', sid, 'avail_in')] = ev.in_left
@@ -893,6 +1263,17 @@ def _patch(ev, sid, code, more_output):
         if x.get('kind') == 'InitListExpr' and len(children(x)) == 1 and \
                 (absint.type_range(x.get('type')) or absint.type_range(x.get('dtype'))):
             return ev.ev(children(x)[0], env)      # braced scalar `std::ptrdiff_t{n}`
+        if x.get('kind') == 'CXXReinterpretCastExpr' and len(children(x)) == 1:
+            return ev.ev(children(x)[0], env)      # the same address under another pointer type
+        if getattr(ev, 'containers', None) is not None:
+            if x.get('kind') == 'CXXMemberCallExpr':
+                r = container_call(ev, x, env)
+                if r is not NotImplemented:
+                    return r
+            if x.get('kind') == 'DeclRefExpr' and '[' in (x.get('type') or ''):
+                i = (x.get('referencedDecl') or {}).get('id')
+                if i not in env:
+                    return Lin.sym('array(%s)' % i)     # the address of a local array
         if x.get('kind') == 'MemberExpr':
             c = children(x)
             b = strip(c[0]) if c else {}
@@ -1023,6 +1404,10 @@ def _patch(ev, sid, code, more_output):
             for r in hs:
                 yield r
             return
+        if getattr(ev, 'containers', None) is not None and x.get('kind') == 'CXXMemberCallExpr' and \
+                container_call(ev, x, env) is not NotImplemented:
+            yield None, env
+            return
         if x.get('kind') == 'BinaryOperator' and x.get('opcode') == '=':
             c = children(x)
             l = strip(c[0])
@@ -1057,7 +1442,7 @@ def _patch(ev, sid, code, more_output):
             # a further round is legitimate (progress) or a spin (no progress).  A loop that
             # tests first is entered only when its condition can hold; one without a condition
             # (`for (;;)`, left by break) would always run again.
-            from ..feval import Choice
+            from ..feval import undecided
             c = children(n)
             if k == 'DoStmt':
                 lbody, lcond, first = c[0], c[1], False
@@ -1076,7 +1461,7 @@ def _patch(ev, sid, code, more_output):
                 if lcond is None:
                     return True
                 v = ev.ev(lcond, e)
-                return True if (v is UNKNOWN or isinstance(v, Choice)) else bool(ev.truth(v))
+                return True if undecided(v) else bool(ev.truth(v))
             if first and not again(env):
                 yield None, env
                 return
